@@ -231,7 +231,7 @@ def _run_chunk_here(chunk, st):
 
 # -- block boundaries -----------------------------------------------------
 
-BLOCKS = (96, 1024, 4096, 8192, 65536, 131072)
+BLOCKS = (96, 1024, 4096, 8192, 65536, 131072, 1048576)
 
 
 LINE_COUNTS = (255, 256, 257, 258, 259, 1023, 1024, 1025, 4096, 4097,
@@ -277,7 +277,7 @@ def run_boundary_chunk(chunk, st):
     sample = None
 
     for nl in NEWLINES + EBCDIC_NEWLINES:
-        for k in (1, 2):
+        for k in ((1,) if block >= 1048576 else (1, 2)):
             for off in range(-len(nl) - 1, 2):
                 pos = k * block + off
 
@@ -360,7 +360,7 @@ def _checks():
             run_case=run_boundary_case,
             rule='data larger than a block with a newline placed at every '
                  'offset around k x block (block in 96, 1 KiB, 4 KiB, 8 KiB, '
-                 '64 KiB, 128 KiB; k = 1, 2) for all 10 newline sequences '
+                 '64 KiB, 128 KiB, 1 MiB; k = 1, 2) for all 10 newline sequences '
                  'and 4 tails; and data with exactly 255..259, 1023..1025, '
                  '4096, 4097, 65535..65537 lines (terminated or not); every '
                  'case has >= 1 newline (non-trivial)',
